@@ -170,6 +170,7 @@ def run(ctx):
         if kind != 'id': ctx.nt((el, a))
         ctx.bump('kind=' + kind)
         if valid and isinstance(real[0], list): load_batch.append((el, a, valid[0]))       # (a refused value stops load() altogether: reported above)
+        if kind == 'id' and valid_by_descriptor(desc, ' x. ') is True: load_batch.append((el, a, [' x. ', '. ', '\u00a0x\u2003', ' '][i % 4]))     # a string is kept with the blanks around it
     # ---- one value per instance through a package and load() --------------------------------------------------------
     from odf.opendocument import load
     step = 400
